@@ -36,9 +36,10 @@ CONFIG["C15"] = dict(
     trusted_base=COMMON_TB + ["modelled, not verified: x/crypto chacha20 (see C14)"],
     technique="Lean 4 proof (range, permutation invariant by induction over the Fisher-Yates loop, swap shape, error guards) + differential run",
     level_text="Theorems for every n, (n,m) and generator state: UintN in range, Permutation is a permutation (count invariant), SubPermutation a prefix of one, "
-               "Samples applies swaps (i,i+j) with i+j<n, error guards. Exact uniformity (counting over tapes) is NOT yet proved: partial.",
+               "Samples applies swaps (i,i+j) with i+j<n, error guards. Exact uniformity of UintN: the candidate is the fresh bytes' number mod 2^k (stale scratch bytes never matter), every value < 2^k is hit by exactly 2^(8*size-k) of the 256^size byte strings, the loop returns the first accepted candidate. "
+               "Equal likelihood of the n! / n!/(n-m)! outcomes of the shuffles (bijectivity of Fisher-Yates choice vectors) is not yet a theorem (partial).",
     level_note="Lean kernel; rejection loop modelled with fuel (the model does not return when fuel is exhausted; the harness never hit that); "
-               "uniformity of the distribution is argued in DESIGN.md but only the structural facts are theorems so far",
+               "the product-counting step from per-attempt uniformity to the distribution of the loop output is the classical argument, not formalised",
     assumptions=["PRG bytes are as in C14"],
 )
 
@@ -68,7 +69,7 @@ CONFIG["C11"] = dict(
     trusted_base=COMMON_TB + ["modelled, not verified: crypto/ecdsa, crypto/elliptic, btcec (that they compute the ECDSA equation is established by the correspondence run)"],
     technique="Lean 4 proof (decision logic of verification and format check) + differential run of ECDSA model vs real Verify",
     level_text="Theorems for every curve parameter set, key, hash and signature string: format check false implies verify false; a verifying signature is 64 bytes with 1<=r,s<n; only the leftmost 256 hash bits matter; guards tied to the extracted conditions. "
-               "Group-level facts (twin, sign=>verify) are checked by correspondence only so far (partial).",
+               "Group-level facts over an abstract group of prime order with xc(-P)=xc(P): the (r,n-s) twin verifies iff (r,s) does; every signature made with a non-zero nonce verifies. That crypto/ecdsa and btcec compute this equation is the correspondence part.",
     level_note="Lean kernel; the verification equation itself is the model (Model.Ecdsa.verifyHash) compared with crypto/ecdsa and btcec",
     assumptions=["hash bytes are produced by the real hashers (tied separately by C13)"],
 )
@@ -84,7 +85,8 @@ CONFIG["C13"] = dict(
     trusted_base=COMMON_TB + ["modelled, not verified: Go crypto/sha256, crypto/sha512, x/crypto/sha3 cSHAKE, the amd64 Keccak assembly / pure Go keccakF1600 (compared with Model.KeccakF / Model.Sha2, themselves checked against KATs in the kernel)"],
     technique="Lean 4 proof (all-splits theorem for the Go sponge buffer logic over an arbitrary permutation; bytepad minimality; KMAC object laws) + differential run vs FIPS/SP 800-185 reference",
     level_text="Theorems: for every rate>0, domain byte, absorb function, prior state and every split into Write calls, Reset+Writes+SumHash = reference digest; ComputeHash independent of prior state; "
-               "never-reset sentinel; one-shot helpers; bytepad aligned+minimal using the pad expression regenerated from kmac.go; KMAC guards and clone semantics. left_encode/right_encode for all values: KATs + correspondence only (partial).",
+               "never-reset sentinel; one-shot helpers; left_encode/right_encode of the Go loops = SP 800-185 for every 64-bit value; encode_string; bytepad = SP 800-185 bytepad using the pad expression regenerated from kmac.go; "
+               "kmac_eq_spec: the KMAC object's ComputeHash equals SP 800-185 KMAC128 for every key/customizer/data/output size; KMAC guards and clone semantics.",
     level_note="Lean kernel; keccakF1600 and SHA-2 compression functions are compared, not verified; refHash (absorb full blocks then padded block) vs FIPS pad-then-absorb equivalence is checked at run time on every case, not proved",
     assumptions=["outputs of the sponge hashers are not longer than the rate (true for the three configured ones)"],
 )
